@@ -229,6 +229,17 @@ Section OptUnfuse.
     - rewrite UY_multi, (ltb_multi H) by lia. apply (PU H).
   Qed.
 
+  Lemma UY_data : (forall K T, In (K, T) (blocks G R Y) -> length (tdata T) = shape_size (tshape T)) ->
+    forall K' T', In (K', T') (blocks G R UY) -> length (tdata T') = shape_size (tshape T').
+  Proof.
+    intros HYd K' T'. destruct (Nat.le_gt_cases (length g) 1) as [H|H].
+    - rewrite UY_small by exact H. apply HYd.
+    - rewrite UY_multi by lia. assert (H2 : 2 <= length g) by lia.
+      destruct (HY_g (multi_ne H2)) as (Hix & _ & Hax & Hk).
+      exact (pruned_unfuse_data G R GL OL x groups Hwf Hg_ne Hg_nd Hg_rng g (Hgin (multi_ne H2)) (multi_sing H2)
+               Y ax dropped IXr (Hsz H2) HY_shape Hax Hk K' T').
+  Qed.
+
   Theorem UY_sem (cL csub cR : list (coord G)) :
     length cL = ax -> length csub = length g ->
     (2 <= length g -> exists s', In s' (sectors G R x) /\ group_subsector G s' g = map fst csub) ->
@@ -326,6 +337,74 @@ Section ScoOk.
       change (shape_size (map (sz G R x s') g)) with (group_size G (indices G R x) s' g) in Ho. lia.
   Qed.
 End ScoOk.
+
+Lemma coords_ok_app_inv (G : Symmetry) (i1 i2 : list (index G)) (cs : list (coord G)) :
+  coords_ok G (i1 ++ i2) cs = true ->
+  cs = firstn (length i1) cs ++ skipn (length i1) cs /\
+  coords_ok G i1 (firstn (length i1) cs) = true /\ coords_ok G i2 (skipn (length i1) cs) = true.
+Proof.
+  intros H. split; [symmetry; apply firstn_skipn|].
+  apply coords_ok_iff in H. destruct H as [Hl H]. rewrite app_length in Hl, H.
+  split; apply coords_ok_iff.
+  - split; [rewrite firstn_length; lia|]. intros i Hi. specialize (H i ltac:(lia)).
+    rewrite app_nth1 in H by exact Hi.
+    rewrite <- (firstn_skipn (length i1) cs) in H. rewrite app_nth1 in H by (rewrite firstn_length; lia). exact H.
+  - split; [rewrite skipn_length; lia|]. intros i Hi. specialize (H (length i1 + i) ltac:(lia)).
+    rewrite app_nth2 in H by lia. replace (length i1 + i - length i1) with i in H by lia.
+    rewrite <- (firstn_skipn (length i1) cs) in H. rewrite app_nth2 in H by (rewrite firstn_length; lia).
+    rewrite firstn_length in H. replace (length i1 + i - Nat.min (length i1) (length cs)) with i in H by lia. exact H.
+Qed.
+
+Section PruneId.
+  Context (G : Symmetry) (R : Ring) (GL : GroupLaws G).
+  Notation keq := (list_eqb (ceqb G)).
+
+  Lemma drop_charges_nil (ix : index G) : drop_charges G ix [] = ix.
+  Proof.
+    destruct ix as [cm d sub]. cbn [drop_charges]. f_equal.
+    - apply filter_all. intros p _. reflexivity.
+    - destruct sub as [[subs ext]|]; [|reflexivity]. f_equal. f_equal. apply filter_all. intros p _. reflexivity.
+  Qed.
+
+  Lemma prune_id (ixs : list (index G)) (secs : list (list (C G))) :
+    (forall i c, i < length ixs -> In c (icharges G (nth i ixs (dflt_index G))) ->
+       exists s, In s secs /\ nth i s (ident G) = c) ->
+    prune_indices G ixs secs = ixs.
+  Proof.
+    intros Hp. apply (nth_ext _ _ (dflt_index G) (dflt_index G)); [apply (length_prune_indices G)|].
+    intros i Hi. rewrite (length_prune_indices G) in Hi. rewrite (nth_prune_indices G) by exact Hi. cbv zeta.
+    rewrite filter_nil_all; [apply drop_charges_nil|].
+    intros c Hc. destruct (Hp i c Hi Hc) as (s & Hs & E).
+    assert (Hm : mem (ceqb G) c (map (fun s0 => nth i s0 (ident G)) secs) = true).
+    { apply (mem_In (ceqb G) (Hce G GL)). apply in_map_iff. exists s. now split. }
+    now rewrite Hm.
+  Qed.
+
+  Lemma acc_keys_in (ps : list (list (C G) * tensor R)) : forall acc k,
+    In k (map fst acc) \/ In k (map fst ps) -> In k (map fst (fold_left (acc_add G R) ps acc)).
+  Proof.
+    induction ps as [|p ps IH]; intros acc k H; cbn [fold_left].
+    - destruct H as [H|[]]. exact H.
+    - apply IH. unfold acc_add. destruct (lookup keq (fst p) acc) as [t|] eqn:E.
+      + rewrite (keys_dset_in keq (Hke G GL)) by (apply (OrderProofs.lookup_In keq (Hke G GL)) in E; now apply (in_map fst) in E).
+        destruct H as [H|[H|H]]; [now left| |now right].
+        left. rewrite <- H. apply (OrderProofs.lookup_In keq (Hke G GL)) in E. now apply (in_map fst) in E.
+      + rewrite map_app. cbn [map]. destruct H as [H|[H|H]]; [left; apply in_or_app; now left| |now right].
+        left. apply in_or_app. right. now left.
+  Qed.
+
+  Lemma pair_key (x y : aarray G R) (la aa ab rb : list nat) sx tx sy ty :
+    In (sx, tx) (blocks G R x) -> In (sy, ty) (blocks G R y) ->
+    take_axes (ident G) sx aa = take_axes (ident G) sy ab ->
+    In (take_axes (ident G) sx la ++ take_axes (ident G) sy rb) (sectors G R (tdot_blockwise G R x y la aa ab rb)).
+  Proof.
+    intros Hx Hy E. unfold tdot_blockwise, sectors. cbn [blocks]. apply acc_keys_in. right.
+    unfold tdot_pairs. apply in_map_iff.
+    exists (take_axes (ident G) sx la ++ take_axes (ident G) sy rb, ttensordot R tx ty aa ab). split; [reflexivity|].
+    apply in_flat_map. exists (sx, tx). split; [exact Hx|]. apply in_flat_map. exists (sy, ty). split; [exact Hy|].
+    cbn [fst snd]. rewrite E. rewrite (proj2 (Hke G GL _ _) eq_refl). now left.
+  Qed.
+End PruneId.
 
 Lemma index_coords_In (G : Symmetry) (ix : index G) ch o : In (ch, o) (index_coords G ix) ->
   exists d, In (ch, d) (chargemap G ix) /\ o < d.
@@ -623,6 +702,7 @@ Section FusedEqGen.
   Notation ww := (tdot_blockwise G R a b la aa ab rb).
   Notation Sum := (rsum R).
 
+  Section Coords.
   Context (csl csr : list (coord G)).
   Context (Hcl : coords_ok G (without_axes (indices G R a) aa) csl = true).
   Context (Hcr : coords_ok G (without_axes (indices G R b) ab) csr = true).
@@ -918,6 +998,251 @@ Section FusedEqGen.
           - etransitivity; [exact (coords_ok_length G _ _ HkcA)|apply length_take_axes]. }
         rewrite Hz. apply (rmul_0_l R RL).
   Qed.
+  End Coords.
+
+  (* ---------------- the index tables of the two results ----------------
+     every charge listed in a table of an operand occurs in one of its stored
+     sectors (true after the alignment, which prunes the tables) *)
+  Context (HpresA : forall ax c, ax < ndim G R a -> In c (icharges G (nth ax (indices G R a) dflt)) ->
+             exists s, In s (sectors G R a) /\ nth ax s idc = c).
+  Context (HpresB : forall ax c, ax < ndim G R b -> In c (icharges G (nth ax (indices G R b) dflt)) ->
+             exists s, In s (sectors G R b) /\ nth ax s idc = c).
+
+  Notation free := (take_axes dflt (indices G R a) la ++ take_axes dflt (indices G R b) rb).
+
+  Lemma partnerB sa : In sa (sectors G R a) ->
+    exists sb, In sb (sectors G R b) /\ take_axes idc sa aa = take_axes idc sb ab.
+  Proof.
+    intros Hsa. assert (Hin : In (take_axes idc sa aa) (con_subs G R a aa)) by (unfold con_subs; apply in_map_iff; now exists sa).
+    apply Hsame in Hin. unfold con_subs in Hin. apply in_map_iff in Hin. destruct Hin as (sb & E & Hsb). exists sb. now split.
+  Qed.
+  Lemma partnerA sb : In sb (sectors G R b) ->
+    exists sa, In sa (sectors G R a) /\ take_axes idc sa aa = take_axes idc sb ab.
+  Proof.
+    intros Hsb. assert (Hin : In (take_axes idc sb ab) (con_subs G R b ab)) by (unfold con_subs; apply in_map_iff; now exists sb).
+    apply Hsame in Hin. unfold con_subs in Hin. apply in_map_iff in Hin. destruct Hin as (sa & E & Hsa). exists sa. now split.
+  Qed.
+
+  (* the blockwise result *)
+  Lemma la_lt i : i < length la -> nth i la 0 < ndim G R a.
+  Proof. intros Hi. apply (In_rest_axes (ndim G R a) aa). rewrite <- Hla. now apply nth_In. Qed.
+  Lemma rb_lt i : i < length rb -> nth i rb 0 < ndim G R b.
+  Proof. intros Hi. apply (In_rest_axes (ndim G R b) ab). rewrite <- Hrb. now apply nth_In. Qed.
+
+  Lemma ww_indices : indices G R ww = free.
+  Proof.
+    change (indices G R ww) with (prune_indices G (without_axes (indices G R a) aa ++ without_axes (indices G R b) ab) (sectors G R ww)).
+    rewrite !(without_axes_take dflt). fold (ndim G R a) (ndim G R b). rewrite <- Hla, <- Hrb.
+    apply (prune_id G GL). intros i c Hi Hc. rewrite app_length, !length_take_axes in Hi.
+    destruct (Nat.lt_ge_cases i (length la)) as [Hl|Hl].
+    - rewrite app_nth1 in Hc by (now rewrite length_take_axes). unfold take_axes in Hc.
+      rewrite (nth_map_lt _ _ _ 0) in Hc by exact Hl.
+      destruct (HpresA _ c (la_lt i Hl) Hc) as (sa & Hsa & Ea). destruct (partnerB sa Hsa) as (sb & Hsb & Eab).
+      destruct (secs_ex G R a sa Hsa) as (ta & Hta). destruct (secs_ex G R b sb Hsb) as (tb & Htb).
+      exists (take_axes idc sa la ++ take_axes idc sb rb).
+      split; [exact (pair_key G R GL a b la aa ab rb sa ta sb tb Hta Htb Eab)|].
+      rewrite app_nth1 by (now rewrite length_take_axes). unfold take_axes. now rewrite (nth_map_lt _ _ _ 0) by exact Hl.
+    - rewrite app_nth2 in Hc by (now rewrite length_take_axes). rewrite length_take_axes in Hc. unfold take_axes in Hc.
+      rewrite (nth_map_lt _ _ _ 0) in Hc by lia.
+      destruct (HpresB _ c (rb_lt (i - length la) ltac:(lia)) Hc) as (sb & Hsb & Eb). destruct (partnerA sb Hsb) as (sa & Hsa & Eab).
+      destruct (secs_ex G R a sa Hsa) as (ta & Hta). destruct (secs_ex G R b sb Hsb) as (tb & Htb).
+      exists (take_axes idc sa la ++ take_axes idc sb rb).
+      split; [exact (pair_key G R GL a b la aa ab rb sa ta sb tb Hta Htb Eab)|].
+      rewrite app_nth2 by (now rewrite length_take_axes). rewrite length_take_axes. unfold take_axes.
+      now rewrite (nth_map_lt _ _ _ 0) by lia.
+  Qed.
+
+  (* the fused result: the product of the fused operands has unpruned tables already *)
+  Lemma fused_charge_from (x : aarray G R) (gs : list (list nat)) (g : list nat) c :
+    wf_array G R x = true -> Forall (fun g : list nat => g <> []) gs -> NoDup (concat gs) ->
+    Forall (fun ax => ax < length (indices G R x)) (concat gs) ->
+    (forall ax c, ax < ndim G R x -> In c (icharges G (nth ax (indices G R x) dflt)) ->
+       exists s, In s (sectors G R x) /\ nth ax s idc = c) ->
+    In g (slots (length (indices G R x)) gs) ->
+    In c (icharges G (fused_index G (indices G R x) (sectors G R x) g)) ->
+    exists s, In s (sectors G R x) /\ group_charge G (indices G R x) s g = c.
+  Proof.
+    intros Hwx Hne Hnd Hrng Hpres Hg Hc.
+    destruct (slot_facts G R x gs Hne Hnd Hrng g Hg) as (_ & Hlt & Hgne).
+    destruct (is_singlet g) eqn:Es.
+    - destruct (singlet_inv g Es) as (g0 & ->).
+      change (fused_index G (indices G R x) (sectors G R x) [g0]) with (nth g0 (indices G R x) dflt) in Hc.
+      rewrite Forall_forall in Hlt. destruct (Hpres g0 c (Hlt g0 (or_introl eq_refl)) Hc) as (s & Hs & E).
+      exists s. split; [exact Hs|]. exact E.
+    - pose proof (nonsinglet_len G R x g Hgne Es) as Hglen.
+      assert (Hsit := Hsecs' G R GL x g Hwx Hlt Hglen).
+      assert (Hixok : Forall (fun ix => cm_ok G (chargemap G ix) = true) (indices G R x)).
+      { destruct (wfp G R GL x Hwx) as (H & _). eapply Forall_impl; [|exact H]. intros ix. apply (wf_index_cm_ok G). }
+      unfold icharges in Hc. apply in_map_iff in Hc. destruct Hc as ([c' d] & E & Hcd). cbn [fst] in E. subst c'.
+      destruct (fused_extents_partition G GL OL (indices G R x) (sectors G R x) g Hixok Hsit Es _ _
+                  (fused_isub G (indices G R x) (sectors G R x) g Es) c d Hcd) as (Hszd & e & He & Hsum & _ & Hall).
+      destruct (fused_chargemap_sorted G GL OL (indices G R x) (sectors G R x) g Hixok Hsit Es) as [_ Hpos].
+      rewrite Forall_forall in Hpos. destruct (Hpos _ Hcd) as [_ Hd]. cbn [snd] in Hd.
+      destruct e as [|p e']; [cbn in Hsum; lia|].
+      inversion Hall as [|? ? (s & Hs & _ & _ & Hgc) _]; subst. exists s. now split.
+  Qed.
+
+  Lemma NS_in_blocks (x : aarray G R) (gs : list (list nat)) s :
+    wf_array G R x = true -> Forall (fun g : list nat => g <> []) gs -> NoDup (concat gs) ->
+    Forall (fun ax => ax < length (indices G R x)) (concat gs) -> In s (sectors G R x) ->
+    exists T, In (fused_sector G (indices G R x) gs s, T) (blocks G R (fuse_core G R x gs)).
+  Proof.
+    intros Hwx Hne Hnd Hrng Hs. destruct (secs_ex G R x s Hs) as (t & Ht).
+    destruct (fuse_layout_groups_thm G R GL OL x gs Hwx Hne Hnd Hrng) as (_ & _ & _ & _ & _ & Hown & _).
+    destruct (Hown s t Ht) as (T & HT & _). exists T. now apply (OrderProofs.lookup_In keq (Hke G GL)).
+  Qed.
+
+  Lemma cc_key sa sb : In sa (sectors G R a) -> In sb (sectors G R b) -> take_axes idc sa aa = take_axes idc sb ab ->
+    In (map (group_charge G (indices G R a) sa) LA ++ map (group_charge G (indices G R b) sb) RB) (sectors G R cc).
+  Proof.
+    intros Hsa Hsb Eab.
+    destruct (NS_in_blocks a gsA sa Hwa neA ndA rgA Hsa) as (Ta & HTa).
+    destruct (NS_in_blocks b gsB sb Hwb neB ndB rgB Hsb) as (Tb & HTb).
+    assert (EA : fused_sector G (indices G R a) gsA sa =
+                 map (group_charge G (indices G R a) sa) LA ++ [group_charge G (indices G R a) sa aa]).
+    { rewrite (fused_sector_slots G), slA, gsA_eq, map_app. reflexivity. }
+    assert (EB : fused_sector G (indices G R b) gsB sb =
+                 group_charge G (indices G R b) sb ab :: map (group_charge G (indices G R b) sb) RB).
+    { rewrite (fused_sector_slots G), slB, gsB_eq. reflexivity. }
+    rewrite EA in HTa. rewrite EB in HTb.
+    assert (Hgc : group_charge G (indices G R a) sa aa = group_charge G (indices G R b) sb ab).
+    { assert (Hin : In (take_axes idc sa aa) (con_subs G R a aa)) by (unfold con_subs; apply in_map_iff; now exists sa).
+      destruct (HagreeP _ Hin) as (_ & Hg & _). rewrite Eab in Hg at 2. now rewrite !gcP_take in Hg. }
+    pose proof (pair_key G R GL af bf la' aa' [0] rb' _ Ta _ Tb HTa HTb) as Hk.
+    assert (E1 : take_axes idc (map (group_charge G (indices G R a) sa) LA ++ [group_charge G (indices G R a) sa aa]) aa' =
+                 take_axes idc (group_charge G (indices G R b) sb ab :: map (group_charge G (indices G R b) sb) RB) [0]).
+    { unfold aa', LA. cbn [filter]. destruct (is_nil la); cbn [negb map app take_axes nth]; now rewrite Hgc. }
+    specialize (Hk E1).
+    assert (E2 : take_axes idc (map (group_charge G (indices G R a) sa) LA ++ [group_charge G (indices G R a) sa aa]) la' =
+                 map (group_charge G (indices G R a) sa) LA).
+    { unfold la', LA. cbn [filter]. destruct (is_nil la); reflexivity. }
+    assert (E3 : take_axes idc (group_charge G (indices G R b) sb ab :: map (group_charge G (indices G R b) sb) RB) rb' =
+                 map (group_charge G (indices G R b) sb) RB).
+    { unfold rb', RB. cbn [filter]. destruct (is_nil rb); reflexivity. }
+    now rewrite E2, E3 in Hk.
+  Qed.
+
+  Lemma cc_indices_eq : indices G R cc = IX0.
+  Proof.
+    rewrite cc_indices. apply (prune_id G GL). intros i c Hi Hc. rewrite IX0_len in Hi. unfold IX0 in Hc.
+    destruct (Nat.lt_ge_cases i (length LA)) as [Hl|Hl].
+    - rewrite app_nth1 in Hc by (now rewrite map_length).
+      assert (En : is_nil la = false).
+      { destruct (is_nil la) eqn:E; [|reflexivity]. destruct (LA_nil E) as [E0 _]. rewrite E0 in Hl. cbn [length] in Hl. lia. }
+      destruct (LA_cons En) as [ELA Hne]. rewrite ELA in Hl, Hc. cbn [length] in Hl. assert (i = 0) by lia. subst i.
+      cbn [map nth] in Hc.
+      destruct (fused_charge_from a gsA la c Hwa neA ndA rgA HpresA (inA_la Hne) Hc) as (sa & Hsa & Ega).
+      destruct (partnerB sa Hsa) as (sb & Hsb & Eab).
+      eexists. split; [exact (cc_key sa sb Hsa Hsb Eab)|].
+      rewrite ELA. cbn [map app nth]. exact Ega.
+    - rewrite app_nth2 in Hc by (now rewrite map_length). rewrite map_length in Hc.
+      assert (En : is_nil rb = false).
+      { destruct (is_nil rb) eqn:E; [|reflexivity]. destruct (RB_nil E) as [E0 _]. rewrite E0 in Hi. cbn [length] in Hi. lia. }
+      destruct (RB_cons En) as [ERB Hne]. rewrite ERB in Hi, Hc. cbn [length] in Hi.
+      assert (Ei : i - length LA = 0) by lia. rewrite Ei in Hc. cbn [map nth] in Hc.
+      destruct (fused_charge_from b gsB rb c Hwb neB ndB rgB HpresB (inB_rb Hne) Hc) as (sb & Hsb & Egb).
+      destruct (partnerA sb Hsb) as (sa & Hsa & Eab).
+      eexists. split; [exact (cc_key sa sb Hsa Hsb Eab)|].
+      rewrite app_nth2 by (now rewrite map_length). rewrite map_length, Ei, ERB. cbn [map nth]. exact Egb.
+  Qed.
+
+  Lemma c2_indices_eq : indices G R c2 = free.
+  Proof.
+    rewrite <- IX2_eq. unfold c2, IX2, UIX.
+    rewrite (UY_indices G R GL OL a gsA Hwa neA ndA rgA la inA_la c1 0 dropL IX1 c1_nd c1_shape HYg_L).
+    assert (E1 : indices G R c1 = IX1).
+    { unfold c1, IX1, UIX.
+      rewrite (UY_indices G R GL OL b gsB Hwb neB ndB rgB rb inB_rb cc (length LA) dropR IX0 cc_nd cc_shape0 HYg_R).
+      now rewrite cc_indices_eq. }
+    now rewrite E1.
+  Qed.
+
+  Theorem fused_indices_eq : indices G R (fused_on G R a b la aa ab rb) = indices G R ww.
+  Proof. now rewrite fused_on_eq, c2_indices_eq, ww_indices. Qed.
+
+  (* ---------------- every coordinate list, in range or not ---------------- *)
+  Context (HdualLegs : forall k, k < length aa ->
+             idual G (nth (nth k aa 0) (indices G R a) dflt) = negb (idual G (nth (nth k ab 0) (indices G R b) dflt))).
+
+  Lemma ww_wf : wf_array G R ww = true.
+  Proof.
+    rewrite Hla, Hrb. destruct Haa_s as [A1 A2]. destruct Hab_s as [B1 B2].
+    exact (tdot_blockwise_wf G GL R OL a b aa ab Hwa Hwb A1 A2 B1 B2 Hlen HdualLegs).
+  Qed.
+
+  Lemma ww_facts K T : In (K, T) (blocks G R ww) ->
+    length K = length free /\ tshape T = block_shape G free K /\ length (tdata T) = shape_size (tshape T).
+  Proof.
+    intros Hin. pose proof ww_wf as Hw. apply (wf_array_iff G GL R ww) in Hw.
+    destruct (wf_bl G R _ _ _ Hw K T Hin) as ((Hl & _) & Hsh & Hd). rewrite ww_indices in Hl, Hsh. now repeat split.
+  Qed.
+  Lemma ww_nd : NoDup (sectors G R ww).
+  Proof. pose proof ww_wf as Hw. apply (wf_array_iff G GL R ww) in Hw. exact (wf_nd G R _ _ _ Hw). Qed.
+
+  Lemma cc_data K T : In (K, T) (blocks G R cc) -> length (tdata T) = shape_size (tshape T).
+  Proof. intros Hin. destruct (wf_bl G R _ _ _ cc_WF K T Hin) as (_ & _ & Hd). exact Hd. Qed.
+  Lemma c1_data K T : In (K, T) (blocks G R c1) -> length (tdata T) = shape_size (tshape T).
+  Proof. exact (UY_data G R GL OL b gsB Hwb neB ndB rgB rb inB_rb cc (length LA) dropR IX0 cc_nd cc_shape0 HYg_R cc_data K T). Qed.
+
+  Lemma c2_facts K T : In (K, T) (blocks G R c2) ->
+    length K = length free /\ tshape T = block_shape G free K /\ length (tdata T) = shape_size (tshape T).
+  Proof.
+    intros Hin.
+    destruct (UY_shape G R GL OL a gsA Hwa neA ndA rgA la inA_la c1 0 dropL IX1 c1_nd c1_shape HYg_L K T Hin) as [Hl Hsh].
+    fold IX2 in Hl, Hsh. rewrite IX2_eq in Hl, Hsh. split; [exact Hl|]. split; [exact Hsh|].
+    exact (UY_data G R GL OL a gsA Hwa neA ndA rgA la inA_la c1 0 dropL IX1 c1_nd c1_shape HYg_L c1_data K T Hin).
+  Qed.
+  Lemma c2_nd : NoDup (sectors G R c2).
+  Proof. exact (UY_nd G R GL OL a gsA Hwa neA ndA rgA la inA_la c1 0 dropL IX1 c1_nd c1_shape HYg_L). Qed.
+
+  Lemma free_split : free = without_axes (indices G R a) aa ++ without_axes (indices G R b) ab.
+  Proof. rewrite !(without_axes_take dflt). fold (ndim G R a) (ndim G R b). now rewrite <- Hla, <- Hrb. Qed.
+
+  Lemma sem_inrange cs : coords_ok G free cs = true -> sem G R c2 cs = sem G R ww cs.
+  Proof.
+    intros Hc. rewrite free_split in Hc. destruct (coords_ok_app_inv G _ _ cs Hc) as (E & H1 & H2).
+    rewrite E, <- fused_on_eq. now apply fused_sem_eq_gen.
+  Qed.
+
+  Lemma get_inrange K idx : length K = length free -> inb (block_shape G free K) idx = true ->
+    sem G R c2 (List.combine K idx) = sem G R ww (List.combine K idx) /\
+    map fst (List.combine K idx) = K /\ map snd (List.combine K idx) = idx.
+  Proof.
+    intros Hl Hi. destruct (coords_ok_combine G free K idx Hl Hi) as (Hc & E1 & E2).
+    split; [now apply sem_inrange|now split].
+  Qed.
+
+  Theorem sem_everywhere cs : sem G R c2 cs = sem G R ww cs.
+  Proof.
+    unfold sem.
+    destruct (lookup keq (map fst cs) (blocks G R c2)) as [Tf|] eqn:Ef;
+      destruct (lookup keq (map fst cs) (blocks G R ww)) as [Tw|] eqn:Ew; [| | |reflexivity].
+    - (* stored by both: the blocks are equal tensors *)
+      pose proof (OrderProofs.lookup_In keq (Hke G GL) _ _ _ Ef) as Hf. pose proof (OrderProofs.lookup_In keq (Hke G GL) _ _ _ Ew) as Hw.
+      destruct (c2_facts _ _ Hf) as (Hl & Hsf & Hdf). destruct (ww_facts _ _ Hw) as (_ & Hsw & Hdw).
+      assert (E : Tf = Tw).
+      { apply tensor_ext; [now rewrite Hsf, Hsw|exact Hdf|exact Hdw|].
+        intros idx Hi. rewrite Hsf in Hi. destruct (get_inrange _ idx Hl Hi) as (Hs & E1 & E2).
+        unfold sem in Hs. rewrite E1, E2, Ef, Ew in Hs. exact Hs. }
+      now rewrite E.
+    - (* only the fused route stores it: an all-zero block *)
+      pose proof (OrderProofs.lookup_In keq (Hke G GL) _ _ _ Ef) as Hf.
+      destruct (c2_facts _ _ Hf) as (Hl & Hsf & Hdf).
+      assert (Hz : Forall (fun v => v = r0 R) (tdata Tf)).
+      { apply (all_zero_of_get R Tf Hdf). intros idx Hi. rewrite Hsf in Hi.
+        destruct (get_inrange _ idx Hl Hi) as (Hs & E1 & E2). unfold sem in Hs. rewrite E1, E2, Ef, Ew in Hs. exact Hs. }
+      unfold get. now apply nth_all_eq.
+    - pose proof (OrderProofs.lookup_In keq (Hke G GL) _ _ _ Ew) as Hw.
+      destruct (ww_facts _ _ Hw) as (Hl & Hsw & Hdw).
+      assert (Hz : Forall (fun v => v = r0 R) (tdata Tw)).
+      { apply (all_zero_of_get R Tw Hdw). intros idx Hi. rewrite Hsw in Hi.
+        destruct (get_inrange _ idx Hl Hi) as (Hs & E1 & E2). unfold sem in Hs. rewrite E1, E2, Ef, Ew in Hs. now symmetry. }
+      unfold get. symmetry. now apply nth_all_eq.
+  Qed.
+
+  Theorem fused_sem_everywhere cs : sem G R (fused_on G R a b la aa ab rb) cs = sem G R ww cs.
+  Proof. rewrite fused_on_eq. apply sem_everywhere. Qed.
+
 End FusedEqGen.
 
 (* ------------------------------------------------------------------ *)
@@ -938,6 +1263,123 @@ Section FusedEqGenFinal.
     apply (mem_In (ceqb G) (Hce G GL)) in Hf. unfold icharges in Hn. rewrite Hf in Hn. discriminate.
   Qed.
 
+  Lemma aligned_context (a b : aarray G R) (aa ab : list nat) :
+    wf_array G R a = true -> wf_array G R b = true ->
+    legs_match G R a b aa ab -> aa <> [] ->
+    let a1 := al_a G R a b aa ab in
+    let b1 := al_b G R a b aa ab in
+    wf_array G R a1 = true /\ wf_array G R b1 = true /\ length aa = length ab /\
+    (forall ss, In ss (con_subs G R a1 aa) <-> In ss (con_subs G R b1 ab)) /\
+    idual G (fused_index G (indices G R a1) (sectors G R a1) aa) =
+      negb (idual G (fused_index G (indices G R b1) (sectors G R b1) ab)) /\
+    (forall ss, In ss (con_subs G R a1 aa) ->
+       block_shape G (subs_of G (indices G R a1) aa) ss = block_shape G (subs_of G (indices G R b1) ab) ss /\
+       gcP G R a1 aa ss = gcP G R b1 ab ss /\ rngP G R a1 aa ss = rngP G R b1 ab ss) /\
+    (is_singlet aa = true -> forall c, In c (icharges G (fused_index G (indices G R a1) (sectors G R a1) aa)) ->
+       In [c] (con_subs G R a1 aa)) /\
+    (forall ax c, ax < ndim G R a1 -> In c (icharges G (nth ax (indices G R a1) dflt)) ->
+       exists s, In s (sectors G R a1) /\ nth ax s idc = c) /\
+    (forall ax c, ax < ndim G R b1 -> In c (icharges G (nth ax (indices G R b1) dflt)) ->
+       exists s, In s (sectors G R b1) /\ nth ax s idc = c) /\
+    (forall k, k < length aa ->
+       idual G (nth (nth k aa 0) (indices G R a1) dflt) = negb (idual G (nth (nth k ab 0) (indices G R b1) dflt))).
+  Proof.
+    intros Hwa Hwb Hlm Hne. cbn zeta.
+    set (a1 := al_a G R a b aa ab) in *. set (b1 := al_b G R a b aa ab) in *.
+    destruct (drop_misaligned_wf G GL R OL a b aa ab Hwa Hwb) as [Hwa1 Hwb1].
+    fold (al_a G R a b aa ab) in Hwa1. fold (al_b G R a b aa ab) in Hwb1. fold a1 in Hwa1. fold b1 in Hwb1.
+    pose proof Hlm as Hlm0. destruct Hlm as (Hlen & Haa_lt & Hab_lt & Hlegs).
+    rewrite Forall_forall in Haa_lt, Hab_lt.
+    assert (Hsame : forall ss, In ss (con_subs G R a1 aa) <-> In ss (con_subs G R b1 ab)).
+    { intros ss. exact (aligned_same_subsectors G R GL a b aa ab ss). }
+    (* sizes of the contracted legs on a common sub-sector *)
+    assert (Hsz : forall k ss, k < length aa -> In ss (con_subs G R a1 aa) ->
+              size_of G (leg G (indices G R a1) aa k) (nth k ss idc) = size_of G (leg G (indices G R b1) ab k) (nth k ss idc)).
+    { intros k ss Hk Hss. unfold a1, b1.
+      rewrite leg_al_a by (apply Haa_lt; now apply nth_In).
+      rewrite leg_al_b by (apply Hab_lt; apply nth_In; lia).
+      rewrite !(size_of_prune1 G GL).
+      - unfold size_of. now rewrite (proj2 (Hlegs k Hk)).
+      - apply (sub_charge_present G R GL); [lia|]. apply Hsame. exact Hss.
+      - apply (sub_charge_present G R GL); [exact Hk|exact Hss]. }
+    assert (Hbs : forall ss, In ss (con_subs G R a1 aa) ->
+              block_shape G (subs_of G (indices G R a1) aa) ss = block_shape G (subs_of G (indices G R b1) ab) ss).
+    { intros ss Hss.
+      assert (Hlss : length ss = length aa).
+      { unfold con_subs in Hss. apply in_map_iff in Hss. destruct Hss as (s & <- & _). apply length_take_axes. }
+      unfold block_shape, subs_of.
+      apply (nth_ext _ _ 0 0); [rewrite !map_length, !combine_length, !map_length; lia|].
+      intros k Hk. rewrite map_length, combine_length, map_length in Hk.
+      rewrite (nth_map_lt _ _ _ (dflt, idc)) by (rewrite combine_length, map_length; lia).
+      rewrite (nth_map_lt _ _ _ (dflt, idc)) by (rewrite combine_length, map_length; lia).
+      rewrite !combine_nth by (rewrite map_length; lia). cbn [fst snd].
+      rewrite (nth_map_lt _ _ _ 0) by lia. rewrite (nth_map_lt _ _ _ 0) by lia.
+      apply (Hsz k ss); [lia|exact Hss]. }
+    assert (Hdual : idual G (fused_index G (indices G R a1) (sectors G R a1) aa) =
+                    negb (idual G (fused_index G (indices G R b1) (sectors G R b1) ab))).
+    { rewrite !stmt_A4, !hd_nth0.
+      change (nth (nth 0 aa 0) (indices G R a1) dflt) with (leg G (indices G R a1) aa 0).
+      change (nth (nth 0 ab 0) (indices G R b1) dflt) with (leg G (indices G R b1) ab 0).
+      assert (H0 : 0 < length aa) by (destruct aa; [congruence|cbn; lia]).
+      unfold a1, b1. rewrite leg_al_a by (apply Haa_lt; now apply nth_In).
+      rewrite leg_al_b by (apply Hab_lt; apply nth_In; lia).
+      rewrite !idual_prune1. apply (Hlegs 0 H0). }
+    split; [exact Hwa1|]. split; [exact Hwb1|]. split; [exact Hlen|]. split; [exact Hsame|]. split; [exact Hdual|].
+    split; [|split; [|split; [|split]]].
+    - (* the fused coordinates of the two contracted legs agree *)
+      intros ss Hss. split; [now apply Hbs|].
+      destruct (Nat.le_gt_cases 2 (length aa)) as [H2|H2].
+      * destruct (aligned_fused_tables G R GL OL a b aa ab Hlm0 H2) as (_ & _ & _ & _ & _ & Hsr & Hgc).
+        fold a1 b1 in Hsr, Hgc.
+        pose proof Hss as Hss0. unfold con_subs in Hss. apply in_map_iff in Hss. destruct Hss as (sa & Esa & Hsa).
+        pose proof (proj1 (Hsame ss) Hss0) as Hssb. unfold con_subs in Hssb. apply in_map_iff in Hssb.
+        destruct Hssb as (sb & Esb & Hsb).
+        destruct (Hgc sa sb Hsa (eq_trans Esa (eq_sym Esb))) as [Hc _].
+        assert (Eg : gcP G R a1 aa ss = gcP G R b1 ab ss).
+        { rewrite <- Esa at 1. rewrite <- Esb. now rewrite !gcP_take. }
+        split; [exact Eg|].
+        unfold rngP. rewrite Eg.
+        replace (is_singlet aa) with false by (symmetry; unfold is_singlet; apply Nat.eqb_neq; lia).
+        replace (is_singlet ab) with false by (symmetry; unfold is_singlet; apply Nat.eqb_neq; lia).
+        apply Hsr.
+      * assert (Hl1 : length aa = 1) by (destruct aa; [congruence|cbn in *; lia]).
+        destruct aa as [|a0 [|? ?]]; try discriminate. destruct ab as [|b0 [|? ?]]; try discriminate.
+        assert (Eg : gcP G R a1 [a0] ss = gcP G R b1 [b0] ss) by reflexivity.
+        split; [exact Eg|].
+        unfold rngP. cbn [is_singlet length Nat.eqb]. f_equal.
+        change (fused_index G (indices G R a1) (sectors G R a1) [a0]) with (leg G (indices G R a1) [a0] 0).
+        change (fused_index G (indices G R b1) (sectors G R b1) [b0]) with (leg G (indices G R b1) [b0] 0).
+        unfold gcP. cbn [is_singlet length Nat.eqb].
+        assert (Hlss : length ss = 1).
+        { unfold con_subs in Hss. apply in_map_iff in Hss. destruct Hss as (s & <- & _). reflexivity. }
+        destruct ss as [|c [|? ?]]; try discriminate. cbn [hd].
+        apply (Hsz 0 [c]); [cbn; lia|exact Hss].
+    - (* one contracted axis: every charge of the (pruned) leg is present *)
+      intros Es c Hc. unfold fused_index in Hc. rewrite Es, hd_nth0 in Hc.
+      change (nth (nth 0 aa 0) (indices G R a1) dflt) with (leg G (indices G R a1) aa 0) in Hc.
+      assert (H0 : 0 < length aa) by (destruct aa; [congruence|cbn; lia]).
+      unfold a1 in Hc. rewrite leg_al_a in Hc by (apply Haa_lt; now apply nth_In).
+      apply prune1_present in Hc. apply (mem_In (ceqb G) (Hce G GL)) in Hc.
+      apply in_map_iff in Hc. destruct Hc as (s & E & Hs).
+      unfold con_subs. apply in_map_iff. exists s. split; [|exact Hs].
+      destruct (singlet_inv aa Es) as (a0 & Eaa). rewrite Eaa in E |- *. cbn [nth] in E.
+      unfold take_axes. cbn [map]. now rewrite E.
+    - intros ax c Hax Hc. unfold a1 in Hc. rewrite indices_al_a in Hc.
+      rewrite (nth_prune G) in Hc by (unfold a1 in Hax; rewrite ndim_al_a in Hax; exact Hax).
+      apply prune1_present in Hc. apply (mem_In (ceqb G) (Hce G GL)) in Hc.
+      apply in_map_iff in Hc. destruct Hc as (s & E & Hs). exists s. now split.
+    - intros ax c Hax Hc. unfold b1 in Hc. rewrite indices_al_b in Hc.
+      rewrite (nth_prune G) in Hc by (unfold b1 in Hax; rewrite ndim_al_b in Hax; exact Hax).
+      apply prune1_present in Hc. apply (mem_In (ceqb G) (Hce G GL)) in Hc.
+      apply in_map_iff in Hc. destruct Hc as (s & E & Hs). exists s. now split.
+    - intros k Hk.
+      change (nth (nth k aa 0) (indices G R a1) dflt) with (leg G (indices G R a1) aa k).
+      change (nth (nth k ab 0) (indices G R b1) dflt) with (leg G (indices G R b1) ab k).
+      unfold a1, b1. rewrite leg_al_a by (apply Haa_lt; now apply nth_In).
+      rewrite leg_al_b by (apply Hab_lt; apply nth_In; lia).
+      rewrite !idual_prune1. apply (Hlegs k Hk).
+  Qed.
+
   Theorem fused_eq_blockwise_gen (a b : aarray G R) (la aa ab rb : list nat) :
     wf_array G R a = true -> wf_array G R b = true ->
     axes_ok (ndim G R a) aa = true -> axes_ok (ndim G R b) ab = true ->
@@ -946,123 +1388,31 @@ Section FusedEqGenFinal.
     aa <> [] ->
     let f := tdot_fused2 G R a b la aa ab rb in
     let w := tdot_blockwise G R a b la aa ab rb in
-    let a1 := al_a G R a b aa ab in
-    let b1 := al_b G R a b aa ab in
-    charge G R f = charge G R w /\
-    forall csl csr, coords_ok G (without_axes (indices G R a1) aa) csl = true ->
-                    coords_ok G (without_axes (indices G R b1) ab) csr = true ->
-                    sem G R f (csl ++ csr) = sem G R w (csl ++ csr).
+    charge G R f = charge G R w /\ indices G R f = indices G R w /\
+    forall cs, sem G R f cs = sem G R w cs.
   Proof.
     intros Hwa Hwb Haa Hab Hlm Hla Hrb Hne. cbn zeta.
-    split; [apply fused_charge|]. intros csl csr Hcl Hcr.
+    split; [apply fused_charge|].
     destruct (is_nil (blocks G R (al_a G R a b aa ab)) || is_nil (blocks G R (al_b G R a b aa ab))) eqn:Eemp.
-    - destruct (fused_eq_blockwise_empty G R GL a b la aa ab rb Hla Hrb Eemp) as [E _]. now rewrite E.
+    - destruct (fused_eq_blockwise_empty G R GL a b la aa ab rb Hla Hrb Eemp) as [E _]. rewrite E.
+      split; [reflexivity|]. intros; reflexivity.
     - rewrite (proj2 (strategies_factor_through_aligned G R GL a b la aa ab rb Hla Hrb)).
       rewrite tdot_fused2_unfold, Eemp.
+      destruct (aligned_context a b aa ab Hwa Hwb Hlm Hne) as (Hwa1 & Hwb1 & Hlen & Hsame & Hdual & Hagree & Hpres & HpA & HpB & Hdl).
       set (a1 := al_a G R a b aa ab) in *. set (b1 := al_b G R a b aa ab) in *.
       assert (Hna : ndim G R a1 = ndim G R a) by apply ndim_al_a.
       assert (Hnb : ndim G R b1 = ndim G R b) by apply ndim_al_b.
       rewrite <- Hna in Hla, Haa. rewrite <- Hnb in Hrb, Hab.
-      destruct (drop_misaligned_wf G GL R OL a b aa ab Hwa Hwb) as [Hwa1 Hwb1].
-      fold (al_a G R a b aa ab) in Hwa1. fold (al_b G R a b aa ab) in Hwb1. fold a1 in Hwa1. fold b1 in Hwb1.
-      pose proof Hlm as Hlm0. destruct Hlm as (Hlen & Haa_lt & Hab_lt & Hlegs).
-      rewrite Forall_forall in Haa_lt, Hab_lt.
-      assert (Hsame : forall ss, In ss (con_subs G R a1 aa) <-> In ss (con_subs G R b1 ab)).
-      { intros ss. exact (aligned_same_subsectors G R GL a b aa ab ss). }
-      (* sizes of the contracted legs on a common sub-sector *)
-      assert (Hsz : forall k ss, k < length aa -> In ss (con_subs G R a1 aa) ->
-                size_of G (leg G (indices G R a1) aa k) (nth k ss idc) = size_of G (leg G (indices G R b1) ab k) (nth k ss idc)).
-      { intros k ss Hk Hss. unfold a1, b1.
-        rewrite leg_al_a by (apply Haa_lt; now apply nth_In).
-        rewrite leg_al_b by (apply Hab_lt; apply nth_In; lia).
-        rewrite !(size_of_prune1 G GL).
-        - unfold size_of. now rewrite (proj2 (Hlegs k Hk)).
-        - apply (sub_charge_present G R GL); [lia|]. apply Hsame. exact Hss.
-        - apply (sub_charge_present G R GL); [exact Hk|exact Hss]. }
-      assert (Hbs : forall ss, In ss (con_subs G R a1 aa) ->
-                block_shape G (subs_of G (indices G R a1) aa) ss = block_shape G (subs_of G (indices G R b1) ab) ss).
-      { intros ss Hss.
-        assert (Hlss : length ss = length aa).
-        { unfold con_subs in Hss. apply in_map_iff in Hss. destruct Hss as (s & <- & _). apply length_take_axes. }
-        unfold block_shape, subs_of.
-        apply (nth_ext _ _ 0 0); [rewrite !map_length, !combine_length, !map_length; lia|].
-        intros k Hk. rewrite map_length, combine_length, map_length in Hk.
-        rewrite (nth_map_lt _ _ _ (dflt, idc)) by (rewrite combine_length, map_length; lia).
-        rewrite (nth_map_lt _ _ _ (dflt, idc)) by (rewrite combine_length, map_length; lia).
-        rewrite !combine_nth by (rewrite map_length; lia). cbn [fst snd].
-        rewrite (nth_map_lt _ _ _ 0) by lia. rewrite (nth_map_lt _ _ _ 0) by lia.
-        apply (Hsz k ss); [lia|exact Hss]. }
-      assert (Hdual : idual G (fused_index G (indices G R a1) (sectors G R a1) aa) =
-                      negb (idual G (fused_index G (indices G R b1) (sectors G R b1) ab))).
-      { rewrite !stmt_A4, !hd_nth0.
-        change (nth (nth 0 aa 0) (indices G R a1) dflt) with (leg G (indices G R a1) aa 0).
-        change (nth (nth 0 ab 0) (indices G R b1) dflt) with (leg G (indices G R b1) ab 0).
-        assert (H0 : 0 < length aa) by (destruct aa; [congruence|cbn; lia]).
-        unfold a1, b1. rewrite leg_al_a by (apply Haa_lt; now apply nth_In).
-        rewrite leg_al_b by (apply Hab_lt; apply nth_In; lia).
-        rewrite !idual_prune1. apply (Hlegs 0 H0). }
-      apply (fused_sem_eq_gen G R GL OL RL a1 b1 la aa ab rb Hla Hrb Hwa1 Hwb1 Haa Hab Hlen Hne Hsame Hdual);
-        [| |exact Hcl|exact Hcr].
-      + (* the fused coordinates of the two contracted legs agree *)
-        intros ss Hss. split; [now apply Hbs|].
-        destruct (Nat.le_gt_cases 2 (length aa)) as [H2|H2].
-        * destruct (aligned_fused_tables G R GL OL a b aa ab Hlm0 H2) as (_ & _ & _ & _ & _ & Hsr & Hgc).
-          fold a1 b1 in Hsr, Hgc.
-          pose proof Hss as Hss0. unfold con_subs in Hss. apply in_map_iff in Hss. destruct Hss as (sa & Esa & Hsa).
-          pose proof (proj1 (Hsame ss) Hss0) as Hssb. unfold con_subs in Hssb. apply in_map_iff in Hssb.
-          destruct Hssb as (sb & Esb & Hsb).
-          destruct (Hgc sa sb Hsa (eq_trans Esa (eq_sym Esb))) as [Hc _].
-          assert (Eg : gcP G R a1 aa ss = gcP G R b1 ab ss).
-          { rewrite <- Esa at 1. rewrite <- Esb. now rewrite !gcP_take. }
-          split; [exact Eg|].
-          unfold rngP. rewrite Eg.
-          replace (is_singlet aa) with false by (symmetry; unfold is_singlet; apply Nat.eqb_neq; lia).
-          replace (is_singlet ab) with false by (symmetry; unfold is_singlet; apply Nat.eqb_neq; lia).
-          apply Hsr.
-        * assert (Hl1 : length aa = 1) by (destruct aa; [congruence|cbn in *; lia]).
-          destruct aa as [|a0 [|? ?]]; try discriminate. destruct ab as [|b0 [|? ?]]; try discriminate.
-          assert (Eg : gcP G R a1 [a0] ss = gcP G R b1 [b0] ss) by reflexivity.
-          split; [exact Eg|].
-          unfold rngP. cbn [is_singlet length Nat.eqb]. f_equal.
-          change (fused_index G (indices G R a1) (sectors G R a1) [a0]) with (leg G (indices G R a1) [a0] 0).
-          change (fused_index G (indices G R b1) (sectors G R b1) [b0]) with (leg G (indices G R b1) [b0] 0).
-          unfold gcP. cbn [is_singlet length Nat.eqb].
-          assert (Hlss : length ss = 1).
-          { unfold con_subs in Hss. apply in_map_iff in Hss. destruct Hss as (s & <- & _). reflexivity. }
-          destruct ss as [|c [|? ?]]; try discriminate. cbn [hd].
-          apply (Hsz 0 [c]); [cbn; lia|exact Hss].
-      + (* one contracted axis: every charge of the (pruned) leg is present *)
-        intros Es c Hc. unfold fused_index in Hc. rewrite Es, hd_nth0 in Hc.
-        change (nth (nth 0 aa 0) (indices G R a1) dflt) with (leg G (indices G R a1) aa 0) in Hc.
-        assert (H0 : 0 < length aa) by (destruct aa; [congruence|cbn; lia]).
-        unfold a1 in Hc. rewrite leg_al_a in Hc by (apply Haa_lt; now apply nth_In).
-        apply prune1_present in Hc. apply (mem_In (ceqb G) (Hce G GL)) in Hc.
-        apply in_map_iff in Hc. destruct Hc as (s & E & Hs).
-        unfold con_subs. apply in_map_iff. exists s. split; [|exact Hs].
-        destruct (singlet_inv aa Es) as (a0 & Eaa). rewrite Eaa in E |- *. cbn [nth] in E.
-        unfold take_axes. cbn [map]. now rewrite E.
+      split.
+      + exact (fused_indices_eq G R GL OL a1 b1 la aa ab rb Hla Hrb Hwa1 Hwb1 Haa Hab Hlen Hne Hsame Hdual Hagree Hpres HpA HpB).
+      + intros cs.
+        exact (fused_sem_everywhere G R GL OL RL a1 b1 la aa ab rb Hla Hrb Hwa1 Hwb1 Haa Hab Hlen Hne Hsame Hdual Hagree Hpres
+                 HpA HpB Hdl cs).
   Qed.
 End FusedEqGenFinal.
 
 (* ------------------------------------------------------------------ *)
 (* Part G: statements for Props/C06b.v *)
-Lemma coords_ok_app_inv (G : Symmetry) (i1 i2 : list (index G)) (cs : list (coord G)) :
-  coords_ok G (i1 ++ i2) cs = true ->
-  cs = firstn (length i1) cs ++ skipn (length i1) cs /\
-  coords_ok G i1 (firstn (length i1) cs) = true /\ coords_ok G i2 (skipn (length i1) cs) = true.
-Proof.
-  intros H. split; [symmetry; apply firstn_skipn|].
-  apply coords_ok_iff in H. destruct H as [Hl H]. rewrite app_length in Hl, H.
-  split; apply coords_ok_iff.
-  - split; [rewrite firstn_length; lia|]. intros i Hi. specialize (H i ltac:(lia)).
-    rewrite app_nth1 in H by exact Hi.
-    rewrite <- (firstn_skipn (length i1) cs) in H. rewrite app_nth1 in H by (rewrite firstn_length; lia). exact H.
-  - split; [rewrite skipn_length; lia|]. intros i Hi. specialize (H (length i1 + i) ltac:(lia)).
-    rewrite app_nth2 in H by lia. replace (length i1 + i - length i1) with i in H by lia.
-    rewrite <- (firstn_skipn (length i1) cs) in H. rewrite app_nth2 in H by (rewrite firstn_length; lia).
-    rewrite firstn_length in H. replace (length i1 + i - Nat.min (length i1) (length cs)) with i in H by lia. exact H.
-Qed.
-
 Theorem fused_eq_blockwise :
   forall (G : Symmetry) (R : Ring), GroupLaws G -> OrderLaws G -> SumLaws R ->
   forall (a b : aarray G R) (la aa ab rb : list nat),
@@ -1073,17 +1423,10 @@ Theorem fused_eq_blockwise :
   aa <> [] ->
   let f := tdot_fused2 G R a b la aa ab rb in
   let w := tdot_blockwise G R a b la aa ab rb in
-  let free := without_axes (indices G R (al_a G R a b aa ab)) aa ++ without_axes (indices G R (al_b G R a b aa ab)) ab in
   charge G R f = charge G R w /\
-  indices G R w = prune_indices G free (sectors G R w) /\
-  forall cs, coords_ok G free cs = true -> sem G R f cs = sem G R w cs.
-Proof.
-  intros G R GL OL RL a b la aa ab rb Hwa Hwb Haa Hab Hlm Hla Hrb Hne. cbn zeta.
-  destruct (fused_eq_blockwise_gen G R GL OL RL a b la aa ab rb Hwa Hwb Haa Hab Hlm Hla Hrb Hne) as [Hq Hsem].
-  split; [exact Hq|]. split.
-  - rewrite (proj2 (strategies_factor_through_aligned G R GL a b la aa ab rb Hla Hrb)). reflexivity.
-  - intros cs Hc. destruct (coords_ok_app_inv G _ _ cs Hc) as (E & H1 & H2). rewrite E. now apply Hsem.
-Qed.
+  indices G R f = indices G R w /\
+  forall cs, sem G R f cs = sem G R w cs.
+Proof. intros G R GL OL RL. exact (fused_eq_blockwise_gen G R GL OL RL). Qed.
 
 Theorem all_modes_agree :
   forall (G : Symmetry) (R : Ring), GroupLaws G -> OrderLaws G -> SumLaws R ->
@@ -1092,21 +1435,21 @@ Theorem all_modes_agree :
   wf_array G R a = true -> wf_array G R b = true ->
   axes_ok (ndim G R a) aa = true -> axes_ok (ndim G R b) ab = true ->
   legs_match G R a b aa ab -> aa <> [] ->
-  let free := without_axes (indices G R (al_a G R a b aa ab)) aa ++ without_axes (indices G R (al_b G R a b aa ab)) ab in
   exists r1 r2, a_tensordot2 G R a b axes m1 = Some r1 /\ a_tensordot2 G R a b axes m2 = Some r2 /\
-    charge G R r1 = charge G R r2 /\
-    forall cs, coords_ok G free cs = true -> sem G R r1 cs = sem G R r2 cs.
+    charge G R r1 = charge G R r2 /\ indices G R r1 = indices G R r2 /\
+    forall cs, sem G R r1 cs = sem G R r2 cs.
 Proof.
-  intros G R GL OL RL a b axes aa ab m1 m2 Hp Hwa Hwb Haa Hab Hlm Hne. cbn zeta.
+  intros G R GL OL RL a b axes aa ab m1 m2 Hp Hwa Hwb Haa Hab Hlm Hne.
   destruct (tensordot2_modes G R a b axes aa ab Hp) as (Hb & Hf & Ha).
-  destruct (fused_eq_blockwise G R GL OL RL a b _ aa ab _ Hwa Hwb Haa Hab Hlm eq_refl eq_refl Hne) as (Hq & _ & Hs).
+  destruct (fused_eq_blockwise G R GL OL RL a b _ aa ab _ Hwa Hwb Haa Hab Hlm eq_refl eq_refl Hne) as (Hq & Hi & Hs).
   assert (Hauto : a_tensordot2 G R a b axes MAuto =
                   Some (tdot_fused2 G R a b (rest_axes (ndim G R a) aa) aa ab (rest_axes (ndim G R b) ab))).
   { rewrite Ha. destruct aa; [congruence|]. exact Hf. }
   destruct m1, m2; eexists; eexists;
     (split; [first [exact Hauto|exact Hf|exact Hb]|split; [first [exact Hauto|exact Hf|exact Hb]|]]);
     (split; [first [reflexivity|exact Hq|symmetry; exact Hq]
-            |intros cs Hc; first [reflexivity|exact (Hs cs Hc)|symmetry; exact (Hs cs Hc)]]).
+            |split; [first [reflexivity|exact Hi|symmetry; exact Hi]
+                    |intros cs; first [reflexivity|exact (Hs cs)|symmetry; exact (Hs cs)]]]).
 Qed.
 
 (* ------------------------------------------------------------------ *)
@@ -1171,19 +1514,19 @@ Module ExC06b.
   Proof. split; vm_compute; reflexivity. Qed.
 
   Example theorems_apply :
-    (forall cs, coords_ok U1 (free_of ya yb [2; 3] [0; 1]) cs = true ->
-       sem U1 ZRing (tdot_fused2 U1 ZRing ya yb [0; 1] [2; 3] [0; 1] [2; 3]) cs =
-       sem U1 ZRing (tdot_blockwise U1 ZRing ya yb [0; 1] [2; 3] [0; 1] [2; 3]) cs) /\
-    (forall cs, coords_ok U1 (free_of ya yb [2] [0]) cs = true ->
-       sem U1 ZRing (tdot_fused2 U1 ZRing ya yb [0; 1; 3] [2] [0] [1; 2; 3]) cs =
-       sem U1 ZRing (tdot_blockwise U1 ZRing ya yb [0; 1; 3] [2] [0] [1; 2; 3]) cs).
+    (forall cs, sem U1 ZRing (tdot_fused2 U1 ZRing ya yb [0; 1] [2; 3] [0; 1] [2; 3]) cs =
+                sem U1 ZRing (tdot_blockwise U1 ZRing ya yb [0; 1] [2; 3] [0; 1] [2; 3]) cs) /\
+    (forall cs, sem U1 ZRing (tdot_fused2 U1 ZRing ya yb [0; 1; 3] [2] [0] [1; 2; 3]) cs =
+                sem U1 ZRing (tdot_blockwise U1 ZRing ya yb [0; 1; 3] [2] [0] [1; 2; 3]) cs) /\
+    indices U1 ZRing (tdot_fused2 U1 ZRing ya yb [0; 1] [2; 3] [0; 1] [2; 3]) =
+    indices U1 ZRing (tdot_blockwise U1 ZRing ya yb [0; 1] [2; 3] [0; 1] [2; 3]).
   Proof.
-    split.
-    - destruct ex22_hyps as (H1 & H2 & H3 & H4 & H5 & H6).
-      exact (proj2 (proj2 (fused_eq_blockwise U1 ZRing U1_laws U1_order ZRing_sum_laws ya yb [0; 1] [2; 3] [0; 1] [2; 3]
-                       H1 H2 H3 H4 H5 eq_refl eq_refl H6))).
-    - destruct ex13_hyps as (H1 & H2 & H3 & H4 & H5 & H6).
-      exact (proj2 (proj2 (fused_eq_blockwise U1 ZRing U1_laws U1_order ZRing_sum_laws ya yb [0; 1; 3] [2] [0] [1; 2; 3]
-                       H1 H2 H3 H4 H5 eq_refl eq_refl H6))).
+    destruct ex22_hyps as (H1 & H2 & H3 & H4 & H5 & H6).
+    destruct (fused_eq_blockwise U1 ZRing U1_laws U1_order ZRing_sum_laws ya yb [0; 1] [2; 3] [0; 1] [2; 3]
+                H1 H2 H3 H4 H5 eq_refl eq_refl H6) as (_ & Hi & Hs).
+    split; [exact Hs|]. split; [|exact Hi].
+    destruct ex13_hyps as (K1 & K2 & K3 & K4 & K5 & K6).
+    exact (proj2 (proj2 (fused_eq_blockwise U1 ZRing U1_laws U1_order ZRing_sum_laws ya yb [0; 1; 3] [2] [0] [1; 2; 3]
+                    K1 K2 K3 K4 K5 eq_refl eq_refl K6))).
   Qed.
 End ExC06b.
